@@ -312,11 +312,50 @@ Definition v_regularize : verb :=
 
 Definition v_nothing : verb := Verb unit tt (fun s _ => (s, [])) (fun _ => []).
 
+(* fill-empty [-v X] [-S]: every empty-string value becomes the fill value (default N/A) *)
+Definition v_fill_empty (fill : bytes) : verb :=
+  v_map (map (fun kv => (fst kv, match snd kv with [] => fill | v => v end))).
+
+(* fill-down --all [-a]: fill_down.go transformAll walks the record's own fields; a field is present when non-empty
+   (or, with -a, always: it is in the record); present values are remembered per key, missing ones replaced in place *)
+Fixpoint fda_fields (only_if_absent : bool) (st : record) (fs : record) : record * record :=
+  match fs with
+  | [] => (st, [])
+  | (k, v) :: t =>
+      let present := if only_if_absent then true else match v with [] => false | _ => true end in
+      if present then let '(st1, t1) := fda_fields only_if_absent (put k v st) t in (st1, (k, v) :: t1)
+      else let '(st1, t1) := fda_fields only_if_absent st t in
+           (st1, (k, match get k st with Some p => p | None => v end) :: t1)
+  end.
+Definition v_fill_down_all (only_if_absent : bool) : verb :=
+  Verb record [] (fun st r => let '(st1, r1) := fda_fields only_if_absent st r in (st1, [r1])) (fun _ => []).
+
+(* cat -n -g k: per-group counters (the group is the value of k); records lacking k share the ungrouped counter;
+   PrependCopy: an existing n is overwritten in place *)
+Fixpoint bump (key : bytes) (cs : list (bytes * Z)) : Z * list (bytes * Z) :=
+  match cs with
+  | [] => (1, [(key, 1)])
+  | (k, n) :: t => if beqb k key then (n + 1, (k, n + 1) :: t) else let '(c, t1) := bump key t in (c, (k, n) :: t1)
+  end.
+Definition v_cat_n_g (k : bytes) : verb :=
+  Verb (Z * list (bytes * Z)) (0, [])
+       (fun st r =>
+          let '(c, st1) := match get k r with
+                           | Some v => let '(c, cs) := bump v (snd st) in (c, (fst st, cs))
+                           | None => (fst st + 1, (fst st + 1, snd st))
+                           end in
+          (st1, [if has (B "n") r then put (B "n") (dec c) r else (B "n", dec c) :: r]))
+       (fun _ => []).
+
+(* tee {file}: the records go on unchanged (the side file is not part of the stream) *)
+Definition v_tee : verb := vcat.
+
 Inductive vcode :=
 | VCat | VTac | VHead (n : Z) | VTail (n : Z) | VRename (old new : bytes) | VCutKeep (ks : list bytes) | VCutDrop (ks : list bytes)
 | VReorderHead (k : bytes) | VReorderTail (k : bytes) | VFillDown (a : bool) (k : bytes) | VPutDot (z x sfx : bytes) | VCatN
 | VCountSimilar (k : bytes) | VSortF (k : bytes) | VNothing
-| VSortN (descending : bool) (k : bytes) | VLabel (names : list bytes) | VRegularize.
+| VSortN (descending : bool) (k : bytes) | VLabel (names : list bytes) | VRegularize
+| VFillEmpty (fill : bytes) | VFillDownAll (only_if_absent : bool) | VCatNG (k : bytes) | VTee.
 
 Definition verb_of (c : vcode) : verb :=
   match c with
@@ -325,6 +364,7 @@ Definition verb_of (c : vcode) : verb :=
   | VReorderTail k => v_reorder_tail k | VFillDown a k => v_fill_down a k | VPutDot z x s => v_put_dot z x s | VCatN => v_cat_n
   | VCountSimilar k => v_count_similar k | VSortF k => v_sort_f k | VNothing => v_nothing
   | VSortN d k => v_sort_n d k | VLabel ns => v_label ns | VRegularize => v_regularize
+  | VFillEmpty f => v_fill_empty f | VFillDownAll a => v_fill_down_all a | VCatNG k => v_cat_n_g k | VTee => v_tee
   end.
 
 Fixpoint zseq (start : Z) (n : nat) : list Z :=
